@@ -112,6 +112,66 @@ Qed.
 Lemma spec_ok_iff P h : spec_ok P h = true <-> Spec P h /\ SpecFinal P h.
 Proof. unfold spec_ok. now rewrite andb_true_iff, scan_Spec, final_ok_SpecFinal. Qed.
 
+(** ** Parts lists *)
+Lemma full_S m i : full m (S i) = full m i ++ [(m, i)].
+Proof. unfold full. rewrite seq_S, map_app. reflexivity. Qed.
+
+Lemma full_0 m : full m 0 = [].
+Proof. reflexivity. Qed.
+
+Lemma in_full x m n : In x (full m n) <-> fst x = m /\ snd x < n.
+Proof.
+  unfold full. rewrite in_map_iff. split.
+  - intros [k [<- Hk]]. apply in_seq in Hk. cbn. split; [reflexivity | lia].
+  - intros [<- Hn]. exists (snd x). split; [now destruct x | apply in_seq; lia].
+Qed.
+
+Lemma parts_of_app m a b : parts_of m (a ++ b) = parts_of m a ++ parts_of m b.
+Proof. apply filter_app. Qed.
+
+Lemma parts_of_full_same m n : parts_of m (full m n) = full m n.
+Proof.
+  unfold parts_of, full. induction (seq 0 n) as [|k l IH]; cbn; [reflexivity|].
+  rewrite Nat.eqb_refl. now rewrite IH.
+Qed.
+
+Lemma parts_of_full_other m m' n : m <> m' -> parts_of m (full m' n) = [].
+Proof.
+  intros Hn. unfold parts_of, full. induction (seq 0 n) as [|k l IH]; cbn; [reflexivity|].
+  destruct (Nat.eqb_spec m' m); [congruence | exact IH].
+Qed.
+
+Lemma parts_of_flat (f : nat -> nat) m l :
+  NoDup l ->
+  parts_of m (flat_map (fun a => full a (f a)) l) = if in_dec Nat.eq_dec m l then full m (f m) else [].
+Proof.
+  induction 1 as [|a l Ha Hnd IH]; [reflexivity|]. cbn [flat_map].
+  rewrite parts_of_app, IH.
+  destruct (in_dec Nat.eq_dec m (a :: l)) as [Hin|Hin]; destruct (in_dec Nat.eq_dec m l) as [Hl|Hl];
+    destruct (Nat.eq_dec a m) as [->|Hn]; cbn in Hin; try tauto.
+  - rewrite parts_of_full_other by congruence. reflexivity.
+  - rewrite parts_of_full_same. apply app_nil_r.
+  - rewrite parts_of_full_other by congruence. reflexivity.
+Qed.
+
+Lemma NoDup_snoc {A} (l : list A) x : NoDup l -> ~ In x l -> NoDup (l ++ [x]).
+Proof.
+  induction 1 as [|a l Ha Hn IH]; cbn; intros Hx.
+  - constructor; [tauto | constructor].
+  - constructor.
+    + rewrite in_app_iff; cbn. intros [H|[H|[]]]; [contradiction | subst; tauto].
+    + apply IH; tauto.
+Qed.
+
+Lemma take_until_snoc_in {A} (p : A -> bool) l e x :
+  In x (take_until p (l ++ [e])) ->
+  In x (take_until p l) \/ (existsb p l = false /\ x = e /\ p e = false).
+Proof.
+  rewrite take_until_snoc. destruct (existsb p l) eqn:E; [auto|].
+  rewrite take_until_none by exact E.
+  destruct (p e) eqn:Ep; [auto|]. rewrite in_app_iff. cbn. intuition.
+Qed.
+
 (** * Part 2: invariants of the LTS *)
 
 Ltac step_cases H :=
@@ -121,6 +181,8 @@ Ltac step_cases H :=
   | (if ?x then _ else _) = Some _ => let E := fresh "E" in destruct x eqn:E; try discriminate
   end;
   inversion H; subst; clear H.
+
+Ltac norm := unfold recording in *; rewrite ?Nat.ltb_lt, ?Nat.ltb_ge, ?Nat.eqb_eq, ?Nat.eqb_neq in *.
 
 (** Which program counters hold the span mutex, and which belong to which operation. *)
 Definition holds (p : pc) : bool :=
@@ -186,14 +248,682 @@ Section Inv.
     - repeat split; cbn in *; intros; try tauto; try congruence; try discriminate.
     - intros s t s' _ (B1 & B2 & B3 & B4 & B5 & B6) Hs.
       step_cases Hs; cbn.
-      all: repeat split; intros.
-      1: match goal with H : context [upd _ ?t _ ?u] |- _ => idtac "found" u t; destruct (Nat.eq_dec u t); [subst|] end.
-      Show.
+      all: repeat split; intros; cbn in *.
       all: upd_cases.
       all: rewrite ?existsb_app_tail, ?in_app_iff in *; cbn in *.
       all: rewrite ?orb_false_r, ?orb_false_iff, ?Nat.eqb_neq in *.
+      all: repeat match goal with
+        | H : _ /\ _ |- _ => destruct H
+        | H : _ \/ _ |- _ => destruct H
+        | H : False |- _ => contradiction
+        | H : In (EvRet _ _ _) (hist _) |- _ => apply B4 in H
+        | H : In (EvCall _ _) (hist _) |- _ => apply B5 in H
+        | H : EvCall _ _ = EvCall _ _ |- _ => inversion H; subst; clear H
+        | H : EvRet _ _ _ = EvRet _ _ _ |- _ => inversion H; subst; clear H
+        | H : EvCall _ _ = _ |- _ => discriminate H
+        | H : EvRet _ _ _ = _ |- _ => discriminate H
+        | H : EvOnEnd _ _ = _ |- _ => discriminate H
+        end.
       all: try congruence.
-      all: eauto.
-      Show.
+      all: try solve [ apply B1; congruence | apply B3; congruence | apply B2; congruence
+                     | left; apply B2; congruence | right; left; congruence
+                     | split; [apply B1|apply Nat.eqb_neq]; congruence
+                     | split; [apply B3|]; congruence
+                     | destruct (nprocs c =? 0); congruence
+                     | destruct o; discriminate
+                     | split; [apply B1; congruence | congruence] ].
+      all: try (match goal with H1 : prog _ ?u = Some ?o', H2 : pcs _ ?u = Done |- _ =>
+                  destruct (B6 u o' H1 H2) as [r' Hr'] end;
+                exists r'; rewrite ?in_app_iff; auto; fail).
+      all: try (eexists; rewrite in_app_iff; right; left; f_equal; congruence).
+  Qed.
+
+  (** The end of the span. *)
+  Definition post_end (p : pc) : bool :=
+    match p with ETask | EProcs | ESnapW | ESnap | EDeliver _ _ => true | _ => false end.
+  Definition returning (p : pc) : bool :=
+    match p with Ret _ | Done => true | _ => false end.
+
+  Definition winner (s : state) : nat := pred (endt s).
+
+  Definition InvC (s : state) : Prop :=
+    (endt s = 0 -> existsb is_cut (hist s) = false) /\
+    (forall t, post_end (pcs s t) = true -> endt s = S t) /\
+    (forall t, prog c t = Some OEnd -> returning (pcs s t) = true -> endt s <> 0) /\
+    (endt s <> 0 -> has_end_call (hist s) = true /\ prog c (winner s) = Some OEnd /\
+                    post_end (pcs s (winner s)) || returning (pcs s (winner s)) = true) /\
+    (forall t i, pcs s t = MApply i -> endt s = 0).
+
+  Lemma invC : forall s, R s -> InvC s.
+  Proof.
+    apply invariant.
+    - repeat split; cbn in *; intros; try tauto; try congruence; try discriminate.
+    - intros s t s' Hr (C1 & C2 & C3 & C4 & C5) Hs.
+      pose proof (invA s Hr) as [HL HP]. pose proof (invB s Hr) as (B1 & B2 & B3 & B4 & B5 & B6).
+      assert (HPt := HP t). assert (C2t := C2 t). assert (C3t := C3 t). assert (HLt := HL t).
+      assert (B2t := B2 t).
+      step_cases Hs; unfold InvC, winner, recording in *; rewrite ?Nat.eqb_eq, ?Nat.eqb_neq in *; cbn in *.
+      all: repeat split; intros; cbn in *.
+      all: upd_cases.
+      all: rewrite ?existsb_app_tail, ?in_app_iff in *; cbn in *.
+      all: repeat match goal with
+        | H : post_end (pcs _ _) = true |- _ => apply C2 in H
+        | H : true = true -> _ |- _ => specialize (H eq_refl)
+        | H : ?x = ?x -> _ |- _ => specialize (H eq_refl)
+        end.
+      all: try congruence.
+      all: try lia.
+      all: rewrite ?orb_false_r in *.
+      all: try match goal with H : endt _ <> 0 |- _ => destruct (C4 H) as (C4a & C4b & C4c) end.
+      all: try solve [ auto | apply C1; auto | eapply C3; eauto; congruence
+                     | destruct (nprocs c =? 0); reflexivity ].
+      all: try (match goal with H : pcs _ _ = MApply _ |- _ => apply C5 in H end; congruence).
+      all: try (match goal with H1 : prog _ ?u = Some ?a, H2 : prog _ ?u = Some ?b |- _ =>
+                  assert (a = b) by congruence; subst end).
+      all: try (rewrite E0 in C4c; discriminate).
+      all: try (destruct (nprocs c =? 0); discriminate).
+      all: try (destruct o; cbn in *; try discriminate; try congruence; auto; fail).
+      all: try (unfold has_end_call in C4a; rewrite C4a; reflexivity).
+      all: try (destruct o; try discriminate; apply existsb_exists; exists (EvCall t OEnd);
+                split; [apply B2t; congruence | reflexivity]).
+      all: try (apply C3t; auto; fail).
+      all: try (destruct o; cbn; rewrite ?orb_false_r; try (apply C1; assumption);
+                exfalso; apply C3t; auto; fail).
+      all: try (exfalso; match goal with H : pcs _ ?u = MApply _ |- _ =>
+                  assert (u = t) by (apply (holder_unique s u t Hr); [rewrite H|rewrite E0]; reflexivity) end;
+                congruence).
+  Qed.
+
+  (** Once the end time is set nothing the snapshot copies changes any more. *)
+  Lemma frozen s t s' : R s -> endt s <> 0 -> step c s t = Some s' ->
+    mk_snap s' = mk_snap s /\ applied s' = applied s /\ kids s' = kids s.
+  Proof.
+    intros Hr He Hs. destruct (invC s Hr) as (_ & _ & _ & _ & C5).
+    step_cases Hs; unfold recording in *; rewrite ?Nat.eqb_eq in *; cbn; auto; try congruence.
+    all: exfalso; apply He; eapply C5; eauto.
+  Qed.
+
+  Lemma endt_mono s t s' : step c s t = Some s' -> endt s <> 0 -> endt s' = endt s.
+  Proof.
+    intros Hs He. step_cases Hs; unfold recording in *; rewrite ?Nat.eqb_eq in *; cbn; congruence.
+  Qed.
+
+  (** ** Structure of the mutation log *)
+  Definition np (t : nat) : nat := match prog c t with Some o => nparts o | None => 0 end.
+  Definition flat (l : list nat) : list (nat * nat) := flat_map (fun m => full m (np m)) l.
+
+  Definition InvD (s : state) : Prop :=
+    NoDup (applied s) /\
+    (forall m, In m (applied s) -> returning (pcs s m) = true /\ exists k n, prog c m = Some (OMut k n)) /\
+    (forall t i, pcs s t = MApply i -> i <= np t) /\
+    (forall m, name s = Some m -> In m (applied s) /\ exists n, prog c m = Some (OMut KName n)) /\
+    (name s = None -> forall m n, In m (applied s) -> prog c m <> Some (OMut KName n)) /\
+    (forall m, status s = Some m -> In m (applied s) /\ exists n, prog c m = Some (OMut KStatus n)) /\
+    (status s = None -> forall m n, In m (applied s) -> prog c m <> Some (OMut KStatus n)).
+
+  Lemma invD : forall s, R s -> InvD s.
+  Proof.
+    apply invariant.
+    - repeat split; cbn in *; intros; try tauto; try congruence; try discriminate. constructor.
+    - intros s t s' Hr (D2 & D3 & D4 & D5 & D6 & D7 & D8) Hs.
+      pose proof (invA s Hr) as [HL HP].
+      assert (HPt := HP t). assert (D3t := D3 t).
+      step_cases Hs; norm; unfold InvD, np in *; cbn in *.
+      all: repeat split; intros; cbn in *.
+      all: upd_cases.
+      all: rewrite ?in_app_iff in *; cbn in *.
+      all: try congruence.
+      all: try solve [ eapply D3; eauto | eapply D4; eauto | eapply D5; eauto | eapply D6; eauto
+                     | eapply D7; eauto | eapply D8; eauto | lia ].
+      all: try (match goal with H : In ?m (applied _) |- _ =>
+                  let X := fresh in destruct (D3 m H) as [X _]; try rewrite E0 in X; try discriminate X end; fail).
+      all: try (destruct o; cbn in *; discriminate).
+      all: try (destruct (nprocs c =? 0); discriminate).
+      all: try (rewrite E; cbn; lia).
+      all: try (match goal with H : MApply _ = MApply _ |- _ => inversion H; subst; clear H end;
+                rewrite ?E; try destruct k; cbn in *; lia).
+      all: try (apply NoDup_snoc; [assumption|]; intro Hin; destruct (D3t Hin) as [X _]; discriminate X).
+      all: try (destruct H as [H|[<-|[]]]; [ destruct (D3 _ H) as [X Y]; first [exact X | exact Y] | eauto ]; fail).
+      all: try destruct k; cbn in *;
+           repeat match goal with
+           | H : Some _ = Some _ |- _ => inversion H; subst; clear H
+           | H : Some _ = None |- _ => discriminate H
+           | H : _ \/ _ |- _ => destruct H
+           | H : False |- _ => contradiction
+           end; subst; eauto; try congruence.
+      all: try solve [ left; eapply D5; eauto | eapply D5; eauto | eapply D6; eauto
+                     | left; eapply D7; eauto | eapply D7; eauto | eapply D8; eauto ].
+  Qed.
+
+  Definition partial (s : state) : list (nat * nat) :=
+    match mu s with
+    | Some t => match pcs s t with MApply i => full t i | _ => [] end
+    | None => []
+    end.
+
+  Definition InvP (s : state) : Prop := parts s = flat (applied s) ++ partial s.
+
+  Lemma invP : forall s, R s -> InvP s.
+  Proof.
+    apply invariant.
+    - reflexivity.
+    - intros s t s' Hr D1 Hs.
+      pose proof (invA s Hr) as [HL HP]. pose proof (invD s Hr) as (_ & _ & D4 & _).
+      assert (HLt := HL t). assert (D4t := D4 t).
+      unfold InvP, partial in *.
+      step_cases Hs; norm; cbn in *.
+      (* threads that hold the lock in s *)
+      all: try (assert (Hm : mu s = Some t) by (apply HLt; reflexivity);
+                rewrite Hm in D1; rewrite E0 in D1; cbn in D1; rewrite ?Hm; rewrite ?upd_same;
+                rewrite ?app_nil_r in *; try assumption).
+      (* threads that do not *)
+      all: try (destruct (mu s) as [h|] eqn:Hm; [|assumption];
+                assert (h <> t) by (intros ->; destruct HLt as [_ X]; discriminate (X eq_refl));
+                rewrite upd_other by assumption; assumption).
+      all: try (rewrite upd_same; try destruct o; cbn; exact D1).
+      + rewrite full_S, app_assoc. fold (flat (applied s)). rewrite <- D1. reflexivity.
+      + rewrite flat_map_app. cbn. rewrite app_nil_r.
+        assert (Hi : i = np t).
+        { specialize (D4t i eq_refl). unfold np in *. rewrite E in *. cbn in *. lia. }
+        rewrite <- Hi. exact D1.
+  Qed.
+
+  (** ** Ghost lists versus history *)
+  Definition InvE (s : state) : Prop :=
+    (forall m o, In m (applied s) -> prog c m = Some o -> In (EvCall m o) (cut (hist s))) /\
+    (forall m k n r, In (EvRet m (OMut k n) r) (pre_end (hist s)) -> In m (applied s)) /\
+    (forall m k n r, pcs s m = Ret r -> prog c m = Some (OMut k n) -> In m (applied s) \/ endt s <> 0) /\
+    NoDup (kids s) /\ children s = length (kids s) /\
+    (forall t, In t (kids s) -> In (EvCall t OChild) (cut (hist s))) /\
+    (forall t r, In (EvRet t OChild r) (pre_end (hist s)) -> In t (kids s)) /\
+    (forall t r, pcs s t = Ret r -> prog c t = Some OChild -> In t (kids s) \/ endt s <> 0) /\
+    (forall t, In t (kids s) -> returning (pcs s t) = true).
+
+  Lemma invE : forall s, R s -> InvE s.
+  Proof.
+    apply invariant.
+    - repeat split; cbn in *; intros; try tauto; try congruence; try discriminate. constructor.
+    - intros s t s' Hr (E1 & E2 & E3 & K1 & K2 & K3 & K4 & K5 & K6) Hs.
+      pose proof (invA s Hr) as [HL HP]. pose proof (invB s Hr) as (B1 & B2 & B3 & B4 & B5 & B6).
+      pose proof (invC s Hr) as (C1 & C2 & C3 & C4 & C5).
+      assert (HPt := HP t). assert (K6t := K6 t). assert (B2t := B2 t).
+      step_cases Hs; norm; unfold InvE, cut, pre_end in *; cbn in *.
+      all: repeat split; intros; cbn in *.
+      all: upd_cases.
+      all: rewrite ?in_app_iff, ?app_length in *; cbn in *.
+      all: try congruence.
+      all: try (apply take_until_mono; eauto; fail).
+      all: repeat match goal with
+           | H : In _ (take_until _ (_ ++ [_])) |- _ =>
+               let Hn := fresh "Hn" in let He := fresh "He" in let Hp := fresh "Hp" in
+               apply take_until_snoc_in in H; destruct H as [H|(Hn & He & Hp)]
+           end.
+      all: try solve [ eauto | lia | discriminate ].
+      all: try (exfalso; match goal with H : In _ (kids _) |- _ => discriminate (K6t H) end).
+      all: try (match goal with H : entry_pc _ = Ret _ |- _ => destruct o; discriminate H end).
+      all: try (match goal with H1 : prog _ ?u = Some ?a, H2 : prog _ ?u = Some ?b |- _ =>
+                  assert (a = b) by congruence; subst; cbn in HPt; discriminate HPt end).
+      all: try (right; first [assumption | congruence | lia]; fail).
+      all: try (destruct (nprocs c =? 0); discriminate).
+      all: try (apply NoDup_snoc; [assumption | intro Hin; discriminate (K6t Hin)]).
+      all: try (match goal with H : _ \/ _ \/ False |- _ => destruct H as [H|[H|[]]] end;
+                [ eauto | subst; eauto; try congruence ]; fail).
+      all: try (match goal with
+                | H : pcs _ ?m = Ret _, H' : prog _ ?m = Some (OMut _ _) |- _ => destruct (E3 _ _ _ _ H H'); tauto
+                | H : pcs _ ?m = Ret _, H' : prog _ ?m = Some OChild |- _ => destruct (K5 _ _ H H'); tauto
+                end).
+      all: try (match goal with H : _ \/ _ \/ False |- _ => destruct H as [H|[H|[]]] end;
+                [ eauto | subst; rewrite take_until_none by (apply C1; first [assumption | eapply C5; eauto]);
+                          apply B2; congruence ]; fail).
+      + destruct H as [H|[H|[]]]; [eauto|]. subst t0. destruct o; try discriminate.
+        rewrite take_until_none by (apply C1; assumption). apply B2; congruence.
+      + inversion He; subst. clear He.
+        destruct (E3 _ _ _ _ E0 E) as [X|X]; [exact X|].
+        exfalso. destruct (C4 X) as [Y _]. unfold has_end_call in Y. congruence.
+      + inversion He; subst. clear He.
+        destruct (K5 _ _ E0 E) as [X|X]; [exact X|].
+        exfalso. destruct (C4 X) as [Y _]. unfold has_end_call in Y. congruence.
+  Qed.
+
+  (** ** Deliveries *)
+  Definition pre_crit (p : pc) : bool := match p with Idle | Called | ECrit => true | _ => false end.
+  Definition dcount (s : state) : nat :=
+    match endt s with
+    | 0 => 0
+    | S w => match pcs s w with EDeliver k _ => k | Ret _ | Done => nprocs c | _ => 0 end
+    end.
+
+  Definition InvF (s : state) : Prop :=
+    (forall p sn, In (EvOnEnd p sn) (hist s) <-> p < dcount s /\ sn = mk_snap s) /\
+    (forall t k sn, pcs s t = EDeliver k sn -> k <= nprocs c /\ sn = mk_snap s) /\
+    (forall t, pre_crit (pcs s t) = true -> endt s <> S t).
+
+  Lemma invF : forall s, R s -> InvF s.
+  Proof.
+    apply invariant.
+    - repeat split; cbn in *; intros; try tauto; try congruence; try discriminate; try lia.
+    - intros s t s' Hr (F1 & F2 & F3) Hs.
+      pose proof (invA s Hr) as [HL HP].
+      pose proof (invC s Hr) as (C1 & C2 & C3 & C4 & C5).
+      assert (HPt := HP t). assert (C2t := C2 t). assert (F3t := F3 t). assert (F2t := F2 t).
+      assert (C5t := C5 t).
+      unfold InvF, dcount, mk_snap in *.
+      destruct (endt s) as [|w] eqn:Het.
+      + step_cases Hs; norm; cbn in *; try rewrite Het in *; cbn in *.
+        all: try lia.
+        all: repeat split; intros; cbn in *.
+        all: upd_cases.
+        all: rewrite ?in_app_iff in *; cbn in *.
+        all: try congruence; try lia.
+        all: try (match goal with H : In (EvOnEnd _ _) (hist _) |- _ => apply F1 in H; lia end).
+        all: try solve [ eapply F2; eauto | eapply F3; eauto ].
+        all: try (exfalso; match goal with H : pcs _ ?u = EDeliver _ _ |- _ =>
+                    generalize (C2 u); rewrite H; cbn; intro X; specialize (X eq_refl); lia end).
+        all: try (exfalso; match goal with H : _ \/ _ \/ False |- _ => destruct H as [H|[H|[]]];
+                    [apply F1 in H; lia | discriminate H] end).
+        all: try (destruct o; discriminate).
+      + assert (F1w := F1).
+        step_cases Hs; norm; cbn in *; try rewrite Het in *; cbn in *.
+        all: try lia.
+        all: repeat split; intros; cbn in *.
+        all: upd_cases.
+        all: rewrite ?in_app_iff in *; cbn in *.
+        all: try congruence; try lia.
+        all: try solve [ eapply F2; eauto | eapply F3; eauto | eapply F1; eauto ].
+        all: try (exfalso; specialize (C5t _ eq_refl); discriminate).
+        all: repeat match goal with
+          | H : _ \/ _ \/ False |- _ => destruct H as [H|[H|[]]]
+          | H : In (EvOnEnd _ _) (hist _) |- _ => apply F1w in H; destruct H
+          | H : EvOnEnd _ _ = EvOnEnd _ _ |- _ => inversion H; subst; clear H
+          | H : _ = EvOnEnd _ _ |- _ => discriminate H
+          | H : _ /\ _ |- _ => destruct H
+          end.
+        all: rewrite ?E0 in *; cbn in *.
+        all: try lia; try congruence.
+        all: try (first [left|idtac]; apply F1w; rewrite ?E0; cbn; split; first [lia | congruence | assumption]; fail).
+        all: try (destruct o; discriminate).
+        all: try (exfalso; assert (Hne : S t <> 0) by discriminate;
+                  destruct (C4 Hne) as (_ & _ & X); unfold winner in X; rewrite Het in X; cbn in X;
+                  rewrite E0 in X; discriminate X).
+        all: try (destruct (nprocs c =? 0) eqn:Hz; norm; cbn in *; first [discriminate | lia]).
+        all: try (match goal with H : EDeliver _ _ = EDeliver _ _ |- _ => inversion H; subst; clear H end).
+        all: try (destruct (F2t _ _ eq_refl) as [Xa Xb]; first [lia | exact Xb]; fail).
+        all: try (unfold mk_snap; rewrite Het; reflexivity).
+        all: try lia.
+        destruct (F2t _ _ eq_refl) as [Xa Xb].
+        destruct (Nat.eq_dec p k) as [->|Hpk].
+        * right; left. f_equal. rewrite H0, Xb. unfold mk_snap. rewrite ?Het. reflexivity.
+        * left. apply F1w. rewrite ?E0. split; [lia | exact H0].
+  Qed.
+
+  (** ** IsRecording answers *)
+  Definition InvG (s : state) : Prop :=
+    forall t r, pcs s t = Ret r -> prog c t = Some OIsRec ->
+      if r then In (EvCall t OIsRec) (cut (hist s)) else endt s <> 0.
+
+  Lemma invG : forall s, R s -> InvG s.
+  Proof.
+    apply invariant.
+    - intros t r H. discriminate H.
+    - intros s t s' Hr G Hs u r.
+      pose proof (invA s Hr) as [HL HP]. pose proof (invB s Hr) as (B1 & B2 & B3 & B4 & B5 & B6).
+      pose proof (invC s Hr) as (C1 & C2 & C3 & C4 & C5).
+      assert (HPt := HP t). assert (Gu := G u r).
+      step_cases Hs; norm; unfold cut in *; cbn in *; intros Hpc Hpr.
+      all: upd_cases.
+      all: try (specialize (Gu Hpc Hpr); destruct r; [try apply take_until_mono|]; first [assumption|discriminate]).
+      all: try (inversion Hpc; subst; clear Hpc).
+      all: try (match goal with H1 : prog _ ?u = Some ?a, H2 : prog _ ?u = Some ?b |- _ =>
+                  assert (a = b) by congruence; subst; cbn in HPt; discriminate HPt end).
+      all: try (destruct (nprocs c =? 0); discriminate).
+      all: try (destruct o; discriminate).
+      + congruence.
+      + destruct (Nat.eqb_spec (endt s) 0) as [Hz|Hz]; [|exact Hz].
+        rewrite take_until_none by (apply C1; exact Hz). apply B2; congruence.
+  Qed.
+
+  (** Each child Start returns at most once. *)
+  Definition ev_tid (e : event) : nat :=
+    match e with EvCall t _ | EvRet t _ _ => t | EvOnEnd p _ => p end.
+
+  Definition InvK (s : state) : Prop :=
+    NoDup (map ev_tid (filter is_child_ret (pre_end (hist s)))).
+
+  Lemma invK : forall s, R s -> InvK s.
+  Proof.
+    apply invariant.
+    - constructor.
+    - intros s t s' Hr K Hs.
+      pose proof (invB s Hr) as (B1 & B2 & B3 & B4 & B5 & B6).
+      unfold InvK, pre_end in *.
+      step_cases Hs; cbn; try assumption.
+      all: rewrite take_until_snoc.
+      all: destruct (existsb is_end_call (hist s)) eqn:Hex; try assumption.
+      all: cbn.
+      all: try (destruct o; cbn; rewrite ?filter_app, ?map_app; cbn; rewrite ?app_nil_r;
+                rewrite take_until_none in K by exact Hex; try assumption).
+      apply NoDup_snoc; [exact K|]. intros Hin. apply in_map_iff in Hin as [e [He Hin]].
+      apply filter_In in Hin as [Hin Hc]. destruct e as [|u o' r'|]; try discriminate. cbn in He; subst u.
+      destruct (B4 _ _ _ Hin) as [X _]. congruence.
+  Qed.
+
+  (** * Part 3: the clauses *)
+
+  Lemma partial_nil s : R s -> endt s <> 0 -> partial s = [].
+  Proof.
+    intros Hr He. pose proof (invC s Hr) as (_ & _ & _ & _ & C5). unfold partial.
+    destruct (mu s) as [h|]; [|reflexivity]. destruct (pcs s h) eqn:Hp; try reflexivity.
+    exfalso; apply He; eapply C5; eauto.
+  Qed.
+
+  Lemma parts_of_reach s m : R s -> endt s <> 0 ->
+    parts_of m (parts s) = if in_dec Nat.eq_dec m (applied s) then full m (np m) else [].
+  Proof.
+    intros Hr He. rewrite (invP s Hr), partial_nil, app_nil_r by assumption.
+    apply parts_of_flat. apply invD; assumption.
+  Qed.
+
+  Lemma parts_of_applied s m : R s -> endt s <> 0 -> In m (applied s) ->
+    parts_of m (parts s) = full m (np m).
+  Proof.
+    intros Hr He Hm. rewrite parts_of_reach by assumption.
+    destruct (in_dec Nat.eq_dec m (applied s)); [reflexivity | contradiction].
+  Qed.
+
+  Lemma atomic_reach s : R s -> endt s <> 0 -> atomic_ok (hist s) (mk_snap s) = true.
+  Proof.
+    intros Hr He. unfold atomic_ok. apply forallb_forall. intros x Hx. cbn in Hx.
+    rewrite (invP s Hr), partial_nil, app_nil_r in Hx by assumption.
+    unfold flat in Hx. apply in_flat_map in Hx as [m [Hm Hx]]. apply in_full in Hx as [Hf Hs].
+    destruct (invD s Hr) as (D2 & D3 & _). destruct (D3 m Hm) as [_ (k & n & Hp)].
+    destruct (invE s Hr) as (E1 & _). specialize (E1 m _ Hm Hp).
+    unfold whole_in. apply existsb_exists. exists (EvCall m (OMut k n)). split; [exact E1|].
+    rewrite Hf, Nat.eqb_refl. cbn [andb].
+    assert (Hnp : np m = nparts (OMut k n)) by (unfold np; now rewrite Hp).
+    assert (Hl : is_log k = true). { destruct k; try reflexivity; cbn in Hnp; lia. }
+    rewrite Hl. cbn [andb]. apply plist_eqb_eq. cbn [sn_parts mk_snap].
+    rewrite parts_of_applied by assumption. now rewrite Hnp.
+  Qed.
+
+  Lemma present_reach s : R s -> endt s <> 0 -> present_ok (hist s) (mk_snap s) = true.
+  Proof.
+    intros Hr He. unfold present_ok. apply forallb_forall. intros e Hin.
+    destruct e as [|m o r|]; try reflexivity. destruct o as [|k n| |]; try reflexivity.
+    destruct (is_log k) eqn:Hl; [|reflexivity].
+    destruct (invE s Hr) as (_ & E2 & _). pose proof (E2 _ _ _ _ Hin) as Hm.
+    destruct (invB s Hr) as (_ & _ & _ & B4 & _).
+    destruct (B4 _ _ _ (take_until_incl _ _ _ Hin)) as [_ Hp].
+    apply plist_eqb_eq. cbn [sn_parts mk_snap]. rewrite parts_of_applied by assumption.
+    unfold np. now rewrite Hp.
+  Qed.
+
+  Lemma reg_name_reach s : R s -> reg_ok KName (name s) (hist s) = true.
+  Proof.
+    intros Hr. destruct (invD s Hr) as (_ & _ & _ & D5 & D6 & _).
+    destruct (invE s Hr) as (E1 & E2 & _). destruct (invB s Hr) as (_ & _ & _ & B4 & _).
+    unfold reg_ok. destruct (name s) as [m|] eqn:Hn.
+    - destruct (D5 m eq_refl) as [Hm [n Hp]]. apply existsb_exists.
+      exists (EvCall m (OMut KName n)). split; [now apply E1|]. now rewrite Nat.eqb_refl.
+    - apply negb_true_iff. apply not_true_is_false. intros Hex.
+      apply existsb_exists in Hex as [e [Hin He]].
+      destruct e as [|m o r|]; try discriminate. destruct o as [|k n| |]; try discriminate.
+      apply mkind_eqb_eq in He; subst k.
+      destruct (B4 _ _ _ (take_until_incl _ _ _ Hin)) as [_ Hp].
+      exact (D6 eq_refl m n (E2 _ _ _ _ Hin) Hp).
+  Qed.
+
+  Lemma reg_status_reach s : R s -> reg_ok KStatus (status s) (hist s) = true.
+  Proof.
+    intros Hr. destruct (invD s Hr) as (_ & _ & _ & _ & _ & D7 & D8).
+    destruct (invE s Hr) as (E1 & E2 & _). destruct (invB s Hr) as (_ & _ & _ & B4 & _).
+    unfold reg_ok. destruct (status s) as [m|] eqn:Hn.
+    - destruct (D7 m eq_refl) as [Hm [n Hp]]. apply existsb_exists.
+      exists (EvCall m (OMut KStatus n)). split; [now apply E1|]. now rewrite Nat.eqb_refl.
+    - apply negb_true_iff. apply not_true_is_false. intros Hex.
+      apply existsb_exists in Hex as [e [Hin He]].
+      destruct e as [|m o r|]; try discriminate. destruct o as [|k n| |]; try discriminate.
+      apply mkind_eqb_eq in He; subst k.
+      destruct (B4 _ _ _ (take_until_incl _ _ _ Hin)) as [_ Hp].
+      exact (D8 eq_refl m n (E2 _ _ _ _ Hin) Hp).
+  Qed.
+
+  Lemma countb_map_tid p (l : list event) : countb p l = length (map ev_tid (filter p l)).
+  Proof. unfold countb. now rewrite map_length. Qed.
+
+  Lemma children_reach s : R s -> children_ok (hist s) (mk_snap s) = true.
+  Proof.
+    intros Hr. destruct (invE s Hr) as (_ & _ & _ & K1 & K2 & K3 & K4 & _).
+    unfold children_ok. cbn [sn_children mk_snap]. rewrite K2.
+    apply andb_true_iff; split; apply Nat.leb_le; rewrite countb_map_tid.
+    - apply NoDup_incl_length; [apply (invK s Hr)|].
+      intros t Ht. apply in_map_iff in Ht as [e [He Hin]]. apply filter_In in Hin as [Hin Hc].
+      destruct e as [|u o r|]; try discriminate. destruct o; try discriminate. cbn in He; subst u.
+      eapply K4; eauto.
+    - apply NoDup_incl_length; [exact K1|].
+      intros t Ht. apply in_map_iff. exists (EvCall t OChild). split; [reflexivity|].
+      apply filter_In. split; [now apply K3 | reflexivity].
+  Qed.
+
+  Lemma snap_ok_reach s : R s -> endt s <> 0 -> snap_ok (hist s) (mk_snap s) = true.
+  Proof.
+    intros Hr He. unfold snap_ok.
+    rewrite atomic_reach, present_reach, children_reach by assumption.
+    cbn [sn_name sn_status sn_et mk_snap]. rewrite reg_name_reach, reg_status_reach by assumption.
+    cbn. destruct (endt s); [contradiction | reflexivity].
+  Qed.
+
+  Lemma winner_eq s : endt s <> 0 -> endt s = S (winner s).
+  Proof. unfold winner. destruct (endt s); [contradiction | reflexivity]. Qed.
+
+  (** Every event satisfies its clause at the moment it is recorded. *)
+  Lemma emit_ok s t s' : R s -> step c s t = Some s' ->
+    hist s' = hist s \/ exists e, hist s' = hist s ++ [e] /\ ev_ok (nprocs c) (hist s) e = true.
+  Proof.
+    intros Hr Hs.
+    pose proof (invA s Hr) as [HL HP]. pose proof (invB s Hr) as (B1 & B2 & B3 & B4 & B5 & B6).
+    pose proof (invC s Hr) as (C1 & C2 & C3 & C4 & C5).
+    pose proof (invF s Hr) as (F1 & F2 & F3).
+    assert (HPt := HP t).
+    step_cases Hs; norm; cbn [hist set_pc set_mu emit set_endt add_part finish_mut inc_child]; auto.
+    - (* call *)
+      right. eexists. split; [reflexivity|]. cbn. now rewrite B1.
+    - (* OnEnd *)
+      right. eexists. split; [reflexivity|].
+      assert (Het : endt s = S t) by (apply C2; now rewrite E0).
+      assert (Hne : endt s <> 0) by lia.
+      destruct (F2 _ _ _ E0) as [_ Hsn]. subst sn.
+      assert (Hd : dcount s = k) by (unfold dcount; now rewrite Het, E0).
+      cbn [ev_ok]. destruct (C4 Hne) as (Hec & _).
+      apply andb_true_iff; split; [apply andb_true_iff; split; [apply andb_true_iff; split;
+        [apply andb_true_iff; split|]|]|];
+        [ now apply Nat.ltb_lt | | exact Hec | | now apply snap_ok_reach ].
+      + apply negb_true_iff, not_true_is_false. intros Hex. apply onend_exists in Hex as [sn Hin].
+        apply F1 in Hin. lia.
+      + apply forallb_forall. intros e Hin. destruct e as [| |p sn]; auto.
+        apply F1 in Hin as [_ ->]. now apply snap_eqb_eq.
+    - (* return *)
+      right. eexists. split; [reflexivity|]. cbn in HPt. cbn [ev_ok].
+      replace (mem_ev (EvCall t o) (hist s)) with true
+        by (symmetry; apply mem_ev_In; apply B2; congruence).
+      rewrite B3 by congruence. cbn [negb andb].
+      destruct o; try exact HPt.
+      pose proof (invG s Hr t r E0 E) as G. destruct r.
+      + now apply mem_ev_In.
+      + now apply C4.
+  Qed.
+
+  Theorem spec_holds s : R s -> Spec (nprocs c) (hist s).
+  Proof.
+    intros Hr past e fut Hh.
+    eapply (history_positions (step c) init hist (fun past e => ev_ok (nprocs c) past e = true)); eauto.
+    intros s0 t s0' Hr0 Hs0. exact (emit_ok s0 t s0' Hr0 Hs0).
+  Qed.
+
+  Theorem final_holds s : R s -> SpecFinal (nprocs c) (hist s).
+  Proof.
+    intros Hr Hc He p Hp.
+    pose proof (invB s Hr) as (B1 & B2 & B3 & B4 & B5 & B6).
+    pose proof (invC s Hr) as (C1 & C2 & C3 & C4 & C5).
+    pose proof (invF s Hr) as (F1 & F2 & F3).
+    apply existsb_exists in He as [e [Hin He]]. destruct e as [t o| |]; try discriminate.
+    destruct o; try discriminate.
+    destruct (Hc _ _ Hin) as (o' & r & Hret). destruct (B4 _ _ _ Hret) as [Hd _].
+    assert (Hne : endt s <> 0). { apply (C3 t); [now apply B5 | now rewrite Hd]. }
+    destruct (C4 Hne) as (_ & Hw & Hpc).
+    assert (Hwi : pcs s (winner s) <> Idle) by (intros X; rewrite X in Hpc; discriminate).
+    pose proof (B2 _ _ Hw Hwi) as Hcall.
+    destruct (Hc _ _ Hcall) as (o2 & r2 & Hret2). destruct (B4 _ _ _ Hret2) as [Hd2 _].
+    exists (mk_snap s). apply F1. split; [|reflexivity].
+    unfold dcount. rewrite (winner_eq s Hne), Hd2. exact Hp.
+  Qed.
+
+  Theorem spec_ok_holds s : R s -> spec_ok (nprocs c) (hist s) = true.
+  Proof. intros Hr. apply spec_ok_iff. split; [now apply spec_holds | now apply final_holds]. Qed.
+
+  (** What was delivered is what the span still holds, at any later time. *)
+  Theorem delivered_is_live s p sn : R s -> In (EvOnEnd p sn) (hist s) -> sn = mk_snap s.
+  Proof. intros Hr Hin. destruct (invF s Hr) as (F1 & _). now apply F1 in Hin. Qed.
+
+  (** After the end time is set, no step changes what snapshot() copies. *)
+  Theorem ended_is_frozen s sch s' : R s -> endt s <> 0 -> run (step c) s sch = Some s' ->
+    mk_snap s' = mk_snap s.
+  Proof.
+    revert s. induction sch as [|t r IH]; cbn; intros s Hr He H.
+    - now inversion H.
+    - destruct (step c s t) as [s1|] eqn:Hs; [|discriminate].
+      destruct (frozen s t s1 Hr He Hs) as [Hsn _].
+      rewrite <- Hsn. apply IH; [eapply Reach_step; eauto | | exact H].
+      rewrite (endt_mono s t s1 Hs He). exact He.
+  Qed.
+
+  (** No reachable state is stuck unless every call has returned. *)
+  Theorem no_deadlock s t o : R s -> prog c t = Some o -> pcs s t <> Done ->
+    exists u, step c s u <> None.
+  Proof.
+    intros Hr Hp Hd. destruct (invA s Hr) as [HL HP].
+    destruct (mu s) as [h|] eqn:Hm.
+    - exists h. assert (Hh : holds (pcs s h) = true) by now apply HL.
+      specialize (HP h). unfold step. destruct (prog c h) as [oh|]; [|rewrite HP in Hh; discriminate].
+      destruct (pcs s h) eqn:E; try discriminate Hh; cbn in HP; destruct oh; try discriminate HP;
+        repeat match goal with |- context [if ?b then _ else _] => destruct b end; discriminate.
+    - exists t. specialize (HP t). unfold step. rewrite Hp in *. rewrite Hm.
+      destruct (pcs s t) eqn:E; try contradiction; cbn in HP; try (destruct o; try discriminate HP);
+        repeat match goal with |- context [if ?b then _ else _] => destruct b end; try discriminate.
   Qed.
 End Inv.
+
+(** * Part 4: readable consequences of the specification (model independent) *)
+
+Lemma Spec_snoc P l e : Spec P (l ++ [e]) <-> Spec P l /\ ev_ok P l e = true.
+Proof.
+  split.
+  - intros H. split.
+    + intros past x fut E. apply (H past x (fut ++ [e])). rewrite E, <- app_assoc. reflexivity.
+    + apply (H l e []). reflexivity.
+  - intros [H1 H2] past x fut E.
+    destruct fut as [|f fut'] using rev_ind.
+    + apply app_inj_tail in E as [-> ->]. exact H2.
+    + clear IHfut'. rewrite app_comm_cons, app_assoc in E. apply app_inj_tail in E as [E _].
+      eapply H1; eauto.
+Qed.
+
+(** At most one OnEnd per processor. *)
+Lemma Spec_once P h p : Spec P h -> countb (is_onend_of p) h <= 1.
+Proof.
+  induction h as [|e l IH] using rev_ind; intros H; [cbn; lia|].
+  apply Spec_snoc in H as [Hl He]. rewrite countb_snoc.
+  destruct (is_onend_of p e) eqn:Ep; [|specialize (IH Hl); lia].
+  destruct e as [| |q sn]; try discriminate. cbn in Ep. apply Nat.eqb_eq in Ep; subst q.
+  cbn in He. rewrite !andb_true_iff in He. destruct He as [[[[_ Hn] _] _] _].
+  apply negb_true_iff in Hn. apply countb_zero in Hn. lia.
+Qed.
+
+(** Only registered processors receive it. *)
+Lemma Spec_registered P h p sn : Spec P h -> In (EvOnEnd p sn) h -> p < P.
+Proof.
+  intros H Hin. apply in_split in Hin as (a & b & ->). specialize (H a _ b eq_refl).
+  cbn in H. rewrite !andb_true_iff in H. destruct H as [[[[Hp _] _] _] _]. now apply Nat.ltb_lt.
+Qed.
+
+(** One snapshot (hence one end time) for all deliveries, and it is non-zero. *)
+Lemma Spec_one_snapshot P h : Spec P h ->
+  forall p sn p' sn', In (EvOnEnd p sn) h -> In (EvOnEnd p' sn') h -> sn = sn' /\ sn_et sn <> 0.
+Proof.
+  induction h as [|e l IH] using rev_ind; intros H p sn p' sn' H1 H2; [destruct H1|].
+  apply Spec_snoc in H as [Hl He]. specialize (IH Hl).
+  assert (Hlast : forall q x, e = EvOnEnd q x ->
+            sn_et x <> 0 /\ forall q' x', In (EvOnEnd q' x') l -> x' = x).
+  { intros q x ->. cbn in He. rewrite !andb_true_iff in He. destruct He as [[[[_ _] _] Hall] Hsn].
+    split.
+    - unfold snap_ok in Hsn. rewrite !andb_true_iff in Hsn. destruct Hsn as [_ Het].
+      apply Nat.ltb_lt in Het. lia.
+    - intros q' x' Hin. rewrite forallb_forall in Hall. specialize (Hall _ Hin). now apply snap_eqb_eq in Hall. }
+  apply in_app_iff in H1 as [H1|[H1|[]]]; apply in_app_iff in H2 as [H2|[H2|[]]].
+  - eapply IH; eauto.
+  - destruct (Hlast _ _ H2) as [Ha Hb]. rewrite (Hb _ _ H1). auto.
+  - destruct (Hlast _ _ H1) as [Ha Hb]. rewrite (Hb _ _ H2). auto.
+  - destruct (Hlast _ _ H1) as [Ha _]. rewrite H1 in H2. inversion H2; subst. auto.
+Qed.
+
+(** Delivery only after End was invoked. *)
+Lemma Spec_after_end_call P past p sn fut :
+  Spec P (past ++ EvOnEnd p sn :: fut) -> has_end_call past = true.
+Proof.
+  intros H. specialize (H past _ fut eq_refl). cbn in H. rewrite !andb_true_iff in H. tauto.
+Qed.
+
+Lemma Spec_snap P past p sn fut :
+  Spec P (past ++ EvOnEnd p sn :: fut) -> snap_ok past sn = true.
+Proof.
+  intros H. specialize (H past _ fut eq_refl). cbn in H. rewrite !andb_true_iff in H. tauto.
+Qed.
+
+(** Atomicity, in words: each mutation is absent from the snapshot or wholly present
+    (and then it was invoked before the end was visible); present if it returned before
+    the first End was invoked. *)
+Lemma snap_atomic past sn m : snap_ok past sn = true ->
+  parts_of m (sn_parts sn) = [] \/
+  exists k n, In (EvCall m (OMut k n)) (cut past) /\ is_log k = true /\
+              parts_of m (sn_parts sn) = full m (nparts (OMut k n)).
+Proof.
+  unfold snap_ok. rewrite !andb_true_iff. intros [[[[[Ha _] _] _] _] _].
+  destruct (parts_of m (sn_parts sn)) as [|x r] eqn:Hp; [now left|right].
+  assert (Hx : In x (parts_of m (sn_parts sn))) by (rewrite Hp; now left).
+  apply filter_In in Hx as [Hin Hm]. apply Nat.eqb_eq in Hm.
+  unfold atomic_ok in Ha. rewrite forallb_forall in Ha. specialize (Ha _ Hin). rewrite Hm in Ha.
+  apply existsb_exists in Ha as [e [He Hw]]. destruct e as [t o| |]; try discriminate.
+  destruct o as [|k n| |]; try discriminate. rewrite !andb_true_iff in Hw. destruct Hw as [[Ht Hl] Hf].
+  apply Nat.eqb_eq in Ht; subst t. apply plist_eqb_eq in Hf. exists k, n. rewrite <- Hp. auto.
+Qed.
+
+Lemma snap_present past sn m k n r : snap_ok past sn = true ->
+  In (EvRet m (OMut k n) r) (pre_end past) -> is_log k = true ->
+  parts_of m (sn_parts sn) = full m (nparts (OMut k n)).
+Proof.
+  unfold snap_ok. rewrite !andb_true_iff. intros [[[[[_ Hp] _] _] _] _] Hin Hl.
+  unfold present_ok in Hp. rewrite forallb_forall in Hp. specialize (Hp _ Hin). cbn beta iota in Hp.
+  rewrite Hl in Hp. now apply plist_eqb_eq.
+Qed.
+
+Lemma snap_children past sn : snap_ok past sn = true ->
+  countb is_child_ret (pre_end past) <= sn_children sn <= countb is_child_call (cut past).
+Proof.
+  unfold snap_ok, children_ok. rewrite !andb_true_iff, !Nat.leb_le. tauto.
+Qed.
+
+(** IsRecording: true only if invoked before the end was visible; false only after an End was invoked. *)
+Lemma Spec_isrec P past t r fut : Spec P (past ++ EvRet t OIsRec r :: fut) ->
+  (r = true -> In (EvCall t OIsRec) (cut past)) /\ (r = false -> has_end_call past = true).
+Proof.
+  intros H. specialize (H past _ fut eq_refl). cbn in H. rewrite !andb_true_iff in H.
+  destruct H as [_ H]. split; intros ->; [now apply mem_ev_In | exact H].
+Qed.
+
+(** * The protocol before fix 845ec5d delivers twice (documentation of what end-once excludes). *)
+Lemma old_protocol_double_delivery :
+  exists sch s, run Old.ostep Old.oinit sch = Some s /\ Old.odelivered s = 2.
+Proof.
+  (* thread 0: lock, check, unlock (window); thread 1: lock, check (still recording!), unlock;
+     both: task end, relock, set end time, unlock, deliver *)
+  exists [0; 0; 1; 1; 0; 0; 0; 0; 1; 1; 1; 1]. eexists. split; [vm_compute; reflexivity | reflexivity].
+Qed.
